@@ -639,16 +639,52 @@ theorem C18_live_partial (ra rb : Bool) (ga gb : Option Nat) (ops : List Op) (hw
       ∃ full : List Nat, (l.get y.other).submitted[k]? = some full ∧ b = full.take c) :=
   ⟨never_refused ra rb ga gb ops hw, never_stuck ra rb ga gb ops hw, in_order_once_fresh ra rb ga gb ops hw⟩
 
-/-! ## The ring buffer: the real index arithmetic refines the byte queue of the session model -/
+/-! ## The ring buffer: the real (checked) index arithmetic never panics and refines the byte queue of the session model -/
 
 /-- **`RingBuf<N>` (model of the real `start` / `end` / `non_empty` arithmetic of
-`utils/storage/ringbuf.rs`, `Model/BtpRing.lean`) refines the bounded byte FIFO**: for every
-capacity `N > 0` and every sequence of `push` (any length, dropping the oldest bytes on overflow) /
-`pop` / `push_byte` / `pop_byte` / `clear`, the bytes handed out and `len`, `free`, `is_full`,
-`is_empty` are those of the byte queue, however often the indices wrap. -/
-theorem ringbuf_refines_queue (n : Nat) (hn : 0 < n) (ops : List RingOp) :
-    Ring.run (Ring.new n) ops = Ring.qRun n [] ops :=
-  Ring.ring_refines_queue n hn ops
+`utils/storage/ringbuf.rs`, `Model/BtpRing.lean`, with a panic outcome at every `usize` `-` / `+`,
+index, slice range and `copy_from_slice`) refines the bounded byte FIFO — and never panics**: for
+every capacity `0 < N ≤ 2^63` and every sequence of `push` (any length, dropping the oldest bytes on
+overflow) / `pop` / `push_byte` / `pop_byte` / `clear`, every call returns normally (`.ok`), the bytes
+handed out and `len`, `free`, `is_full`, `is_empty` are those of the byte queue, however often the
+indices wrap. `RingOp.Wf` (slice lengths `< 2^64`) is what the Rust type system guarantees of any
+`&[u8]`; `2 * N ≤ 2^64` holds for every array type (`[u8; N]` is at most `isize::MAX` bytes). -/
+theorem ringbuf_refines_queue (n : Nat) (hn : 0 < n) (hs : 2 * n ≤ USIZE) (ops : List RingOp)
+    (hw : ∀ op ∈ ops, op.Wf) :
+    Ring.run (Ring.new n) ops = .ok (Ring.qRun n [] ops) :=
+  Ring.ring_refines_queue n hn hs ops hw
+
+/-- **No run of the ring buffer panics or hangs** (corollary of `ringbuf_refines_queue`, stated on
+its own): no arithmetic overflow, no index / slice-range panic, no `copy_from_slice` length
+mismatch, no endless loop, for any operation list from `RingBuf::<N>::new()`. -/
+theorem ring_never_panics (n : Nat) (hn : 0 < n) (hs : 2 * n ≤ USIZE) (ops : List RingOp)
+    (hw : ∀ op ∈ ops, op.Wf) (e : RingFail) : Ring.run (Ring.new n) ops ≠ .error e := by
+  rw [ringbuf_refines_queue n hn hs ops hw]; intro h; cases h
+
+/-- … and per call: on every ring reachable from `RingBuf::<N>::new()` each public method, with any
+data / any output buffer length, and each observer returns normally. -/
+theorem ring_op_never_panics (n : Nat) (hn : 0 < n) (hs : 2 * n ≤ USIZE) (r : Ring) (h : Ring.Reach n r) :
+    (∀ d, d.length < USIZE → ∃ r2 l, r.push d = .ok (r2, l)) ∧
+    (∀ k, k < USIZE → ∃ r2 out, r.pop k = .ok (r2, out)) ∧
+    (∀ b, ∃ r2 l, r.pushByte b = .ok (r2, l)) ∧
+    (∃ r2 o, r.popByte = .ok (r2, o)) ∧
+    (∃ l, r.len = .ok l) ∧ (∃ f, r.free = .ok f) ∧
+    (∀ op, op.Wf → ∃ r2 o, r.step op = .ok (r2, o)) :=
+  Ring.ring_never_panics hn hs h
+
+/-- the capacity BTP uses (`RingBuf<MAX_MESSAGE_SIZE>`, a constant: session.rs:184/191) satisfies
+the hypotheses of the ring theorems -/
+theorem session_ring_capacity : 0 < maxMessageSize ∧ 2 * maxMessageSize ≤ USIZE := by
+  rw [maxMessageSize_eq]; unfold USIZE; omega
+
+/-- `N = 0` (not used by BTP) is outside the theorems, and really misbehaves: `push_byte` panics
+(index 0 of an empty `Vec`), `push` of a non-empty slice neither panics nor returns (each
+iteration copies 0 bytes), everything else works on the always-empty ring. -/
+theorem ring_zero_capacity (b : Nat) (d : List Nat) (hd : d ≠ []) :
+    (Ring.new 0).pushByte b = .error (.panic "push_byte: buf[end]") ∧
+    (Ring.new 0).push d = .error .hang ∧
+    (Ring.new 0).push [] = .ok (Ring.new 0, 0) ∧ (Ring.new 0).free = .ok 0 :=
+  ⟨Ring.zero_cap_pushByte_panics b, Ring.zero_cap_push_hangs d hd, rfl, rfl⟩
 
 /-- the byte-list ring of the session model (`Model/Btp.lean`) *is* that byte queue with
 `N = MAX_MESSAGE_SIZE` … -/
@@ -657,27 +693,59 @@ theorem session_ring_is_queue (buf data : List Nat) :
   ⟨rfl, rfl⟩
 
 /-- … so a real `RingBuf<MAX_MESSAGE_SIZE>` that represents the session's byte list `buf` behaves
-exactly as the session model assumes: `push` gives `ringPush`, `free()` gives `ringFree`, `pop(k)`
-hands out `buf.take k` and leaves `buf.drop k` (the two length bytes, the payload and the skipped
-rest of `RecvWindow::fetch_message` are such pops). -/
-theorem session_ring_ops (r : Ring) (buf : List Nat) (h : Ring.Rep maxMessageSize r buf) (data : List Nat) (k : Nat) :
-    Ring.Rep maxMessageSize (r.push data) (ringPush buf data) ∧
-    r.free = ringFree buf ∧
-    (r.pop k).2 = buf.take k ∧ Ring.Rep maxMessageSize (r.pop k).1 (buf.drop k) := by
+exactly as the session model assumes, **without panicking**: `push` gives `ringPush` (and returns
+its length), `free()` gives `ringFree`, `len()` the length, `pop(k)` hands out `buf.take k` and leaves
+`buf.drop k`, `pop_byte()` hands out the first byte (if any), `clear()` empties it. Per operation;
+the lift to whole sequences of `RecvWindow` buffer operations is `session_buffer_on_ring` below. -/
+theorem session_ring_ops (r : Ring) (buf : List Nat) (h : Ring.Rep maxMessageSize r buf)
+    (data : List Nat) (hd : data.length < USIZE) (k : Nat) (hk : k < USIZE) :
+    (∃ r2, r.push data = .ok (r2, (ringPush buf data).length) ∧ Ring.Rep maxMessageSize r2 (ringPush buf data)) ∧
+    r.free = .ok (ringFree buf) ∧ r.len = .ok buf.length ∧
+    (∃ r2, r.pop k = .ok (r2, buf.take k) ∧ Ring.Rep maxMessageSize r2 (buf.drop k)) ∧
+    (∃ r2, r.popByte = .ok (r2, buf.head?) ∧ Ring.Rep maxMessageSize r2 (buf.drop 1)) ∧
+    Ring.Rep maxMessageSize r.clear [] := by
   obtain ⟨hi, hn, hq⟩ := h
-  obtain ⟨a, b, c⟩ := Ring.push_spec hi data
-  obtain ⟨d, e, f, g⟩ := Ring.pop_spec hi k
-  refine ⟨⟨a, b.trans hn, by rw [c, hn, hq]; rfl⟩, ?_, by rw [f, hq], ⟨d, e.trans hn, by rw [g, hq]⟩⟩
-  unfold Ring.free ringFree
-  rw [hn, ← hq, Ring.contents_length]
+  obtain ⟨r2, a, b, c, d⟩ := Ring.push_spec hi data hd
+  obtain ⟨r3, e, f, g, i⟩ := Ring.pop_spec hi k hk
+  obtain ⟨r4, j, l, m, o⟩ := Ring.popByte_spec hi
+  obtain ⟨p, q, s⟩ := Ring.clear_spec hi
+  have hd2 : r2.contents = ringPush buf data := by rw [d, hn, hq]; rfl
+  refine ⟨⟨r2, ?_, b, c.trans hn, hd2⟩, ?_, ?_, ⟨r3, by rw [e, hq], f, g.trans hn, by rw [i, hq]⟩,
+    ⟨r4, by rw [j, hq], l, m.trans hn, by rw [o, hq]⟩, ⟨p, q.trans hn, s⟩⟩
+  · rw [a, ← hd2, Ring.contents_length]
+  · rw [Ring.free_ok hi]; unfold ringFree; rw [hn, ← hq, Ring.contents_length]
+  · rw [Ring.len_ok hi, ← hq, Ring.contents_length]
 
 /-- Non-vacuity of `session_ring_ops`: the fresh ring represents the empty byte list. -/
-example : Ring.Rep maxMessageSize (Ring.new maxMessageSize) [] := Ring.rep_new _ (by decide)
+example : Ring.Rep maxMessageSize (Ring.new maxMessageSize) [] :=
+  Ring.rep_new _ session_ring_capacity.1 session_ring_capacity.2
 
-/-- Non-vacuity / a wrap-around sample: capacity 4, push 3, pop 2, push 3 (wraps), pop 4. -/
+/-- Non-vacuity / a wrap-around sample: capacity 4, push 3, pop 2, push 3 (wraps, ring full), pop 4. -/
 example : Ring.run (Ring.new 4) [.push [1, 2, 3], .pop 2, .push [4, 5, 6], .pop 4] =
-    [⟨[], 3, 1, false, false⟩, ⟨[1, 2], 1, 3, false, false⟩, ⟨[], 4, 0, true, false⟩,
-     ⟨[3, 4, 5, 6], 0, 4, false, true⟩] := by decide
+    .ok [⟨[], 3, 1, false, false⟩, ⟨[1, 2], 1, 3, false, false⟩, ⟨[], 4, 0, true, false⟩,
+     ⟨[3, 4, 5, 6], 0, 4, false, true⟩] := rfl
+
+/-- an over-long push (9 bytes into capacity 4) keeps the newest 4 bytes and does not panic; a pop of
+more than is available (7 > 4) hands out what is there; then byte-wise operations across the wrap,
+`clear`, and `pop_byte` on the empty ring. -/
+example : Ring.run (Ring.new 4) [.push [1, 2, 3, 4, 5, 6, 7, 8, 9], .pop 7, .pushByte 1, .pushByte 2,
+      .push [3, 4, 5], .popByte, .clear, .popByte, .pop 0, .push []] =
+    .ok [⟨[], 4, 0, true, false⟩, ⟨[6, 7, 8, 9], 0, 4, false, true⟩, ⟨[], 1, 3, false, false⟩,
+      ⟨[], 2, 2, false, false⟩, ⟨[], 4, 0, true, false⟩, ⟨[2], 3, 1, false, false⟩,
+      ⟨[], 0, 4, false, true⟩, ⟨[], 0, 4, false, true⟩, ⟨[], 0, 4, false, true⟩,
+      ⟨[], 0, 4, false, true⟩] := rfl
+
+/-- the panic outcome is live in the model (the theorems are not vacuous because the model could
+never fail): a ring whose indices violate the invariant panics — `end = 5` in a 4-byte storage:
+`buf.len() - end` underflows — and so does `RingBuf<0>::push_byte`. -/
+example : ({ n := 4, buf := [0, 0, 0, 0], start := 0, end_ := 5, nonEmpty := true } : Ring).push [1] =
+    .error (.panic "push: buf.len() - end") := rfl
+example : ({ n := 4, buf := [0, 0, 0, 0], start := 3, end_ := 1, nonEmpty := true } : Ring).pop 3 =
+    .ok ({ n := 4, buf := [0, 0, 0, 0], start := 1, end_ := 1, nonEmpty := false }, [0, 0]) := rfl
+example : ({ n := 4, buf := [0, 0], start := 0, end_ := 3, nonEmpty := true } : Ring).pop 3 =
+    .error (.panic "pop: buf[start..start + len]") := rfl
+example : Ring.run (Ring.new 0) [.pop 3, .pushByte 1] = .error (.panic "push_byte: buf[end]") := rfl
+example : Ring.run (Ring.new 0) [.push [1]] = .error .hang := rfl
 
 /-! ## The full statement -/
 
